@@ -9,12 +9,14 @@ import (
 	"encoding/binary"
 	"fmt"
 	"hash"
+	"strings"
 	"testing"
 	"testing/synctest"
 	"time"
 
 	"google.golang.org/protobuf/proto"
 
+	"github.com/scionproto/scion/control/beacon"
 	"github.com/scionproto/scion/control/beaconing"
 	"github.com/scionproto/scion/control/ifstate"
 	"github.com/scionproto/scion/pkg/addr"
@@ -138,6 +140,63 @@ func c23Interfaces(i int) map[uint16]ifstate.InterfaceInfo {
 }
 
 func c23Extender(i int, signers []c23Signer, maxExp uint8, epic bool) *beaconing.DefaultExtender {
+	return c23ExtenderFn(i, signers, func() uint8 { return maxExp }, epic, "c23")
+}
+
+// c23MaxExpStore is the part of the control service's beacon store (control.Store) the extenders are wired to.
+type c23MaxExpStore interface {
+	MaxExpTime(policyType beacon.PolicyType) uint8
+}
+
+// c23Policy builds one beaconing policy the way the control service loads it (control/policy.go loadPolicy): no policy
+// file = zero policy with defaults, otherwise the YAML document parsed by beacon.ParsePolicyYaml.
+func c23Policy(t beacon.PolicyType, maxExp int) (beacon.Policy, error) {
+	var pol beacon.Policy
+	if maxExp >= 0 {
+		p, err := beacon.ParsePolicyYaml(strings.NewReader(fmt.Sprintf("Type: %s\nMaxExpTime: %d\n", t, maxExp)), t)
+		if err != nil {
+			return pol, err
+		}
+		if err := p.Validate(); err != nil {
+			return pol, err
+		}
+		pol = *p
+	}
+	pol.InitDefaults()
+	pol.Type = t
+	return pol, nil
+}
+
+// c23Task is one periodic task of the control service that owns an extender (control/tasks.go): which policy type's
+// maximum its extender is wired to (store.MaxExpTime(<type>)) and how it extends.
+type c23Task struct {
+	name      string
+	core      bool
+	policy    beacon.PolicyType    // the policy type whose configured maximum binds this task (oracle side, a constant)
+	reg       beacon.RegPolicyType // segment writers: the registration policy type the writer is started for
+	originate bool                 // first entry (ingress 0)
+	terminate bool                 // egress 0
+}
+
+// maxExpFn is the MaxExpTime callback exactly as control/tasks.go builds it for the task's extender.
+func (tk *c23Task) maxExpFn(st c23MaxExpStore) func() uint8 {
+	if tk.reg != "" {
+		policyType := tk.reg
+		return func() uint8 { return st.MaxExpTime(policyType.PolicyType()) }
+	}
+	return func() uint8 { return st.MaxExpTime(beacon.PropPolicy) }
+}
+
+var c23Tasks = []c23Task{
+	{"originator", true, beacon.PropPolicy, "", true, false},
+	{"propagator", true, beacon.PropPolicy, "", false, false},
+	{"segment_writer(core)", true, beacon.CoreRegPolicy, beacon.RegPolicyTypeCore, false, true},
+	{"propagator", false, beacon.PropPolicy, "", false, false},
+	{"segment_writer(up)", false, beacon.UpRegPolicy, beacon.RegPolicyTypeUp, false, true},
+	{"segment_writer(down)", false, beacon.DownRegPolicy, beacon.RegPolicyTypeDown, false, true},
+}
+
+func c23ExtenderFn(i int, signers []c23Signer, maxExp func() uint8, epic bool, task string) *beaconing.DefaultExtender {
 	key := c23Key16(i)
 	return &beaconing.DefaultExtender{
 		IA: c23IA(i),
@@ -157,11 +216,11 @@ func c23Extender(i int, signers []c23Signer, maxExp uint8, epic bool) *beaconing
 		},
 		Intfs:                ifstate.NewInterfaces(c23Interfaces(i), ifstate.Config{}),
 		MTU:                  1472,
-		MaxExpTime:           func() uint8 { return maxExp },
+		MaxExpTime:           func() uint8 { return maxExp() },
 		StaticInfo:           func() *beaconing.StaticInfoCfg { return nil },
 		DiscoveryInformation: func() *discovery.Extension { return nil },
 		EPIC:                 epic,
-		Task:                 "c23",
+		Task:                 task,
 	}
 }
 
@@ -180,6 +239,10 @@ type c23Case struct {
 	// extension; extendFirst: one extension is done with the original table before the reloads
 	topo        []map[uint16]ifstate.InterfaceInfo
 	extendFirst bool
+	// part F: the extender's MaxExpTime callback is the beacon store's, as wired by the control service for `task`;
+	// maxExp is then the maximum CONFIGURED for the policy type of that task (the oracle never asks the store)
+	store c23MaxExpStore
+	task  *c23Task
 }
 
 func TestC23(t *testing.T) {
@@ -192,7 +255,10 @@ func TestC23(t *testing.T) {
 		"P-384); part D: every ordered list of 2 and 3 signers (own key per position) over {covering, starting 1s after the " +
 		"timestamp} x NotAfter-(ts+max lifetime) {-1s,+1s,+1d} (quick: every third 3-list); part E: every sequence of 1-2 (thorough 3) topology reloads (ifstate.Interfaces.Update) " +
 		"over 10 table variants (neighbour / peer re-homed, MTUs, link types, remote interface id, interface removed) with and " +
-		"without an extension before the reloads. One case = one Extend call judged field by field; non-trivial = every case (all inputs pairwise different)"
+		"without an extension before the reloads; part F: the maximum obtained the way the control service does: real beacon.Store / beacon.CoreStore built from " +
+		"policies (loaded like control/policy.go: unset or YAML) for every assignment of MaxExpTime {unset,0,20,130,255} to Prop x UpReg x DownReg (non-core) and " +
+		"Prop x CoreReg (core), x every task owning an extender (originator, propagator, segment writer up/down/core) wired as in control/tasks.go " +
+		"(store.MaxExpTime(<policy type of the task>)); the bound is the maximum configured for THAT policy type (default 63). One case = one Extend call judged field by field; non-trivial = every case (all inputs pairwise different)"
 	synctest.Test(t, func(t *testing.T) { c23Run(r) })
 	r.Finish(5)
 }
@@ -461,6 +527,85 @@ func c23Run(r *mc.Run) {
 		}
 	}
 
+	// part F: the maximum as the control service obtains it. Real beacon.Store (non-core) / beacon.CoreStore (core) built
+	// from policies loaded like control/policy.go does, every assignment of MaxExpTime in {unset, 0, 20, 130, 255} to the
+	// policy types of the store (non-core: Prop x UpReg x DownReg, core: Prop x CoreReg); for every task of that kind of
+	// AS that owns an extender (control/tasks.go) the extender is wired as there: MaxExpTime = store.MaxExpTime(<policy
+	// type of the task>). The signer outlives every maximum, so the configured maximum of THAT policy type is the bound.
+	{
+		alphabet := []int{-1, 0, 20, 130, 255}
+		confMax := func(v int) uint8 {
+			if v < 0 {
+				return 63 // documented default (doc/manuals/control.rst / beacon policy: MaxExpTime default 63)
+			}
+			return uint8(v)
+		}
+		type conf struct {
+			core  bool
+			vals  map[beacon.PolicyType]int
+			store c23MaxExpStore
+			desc  string
+		}
+		var confs []conf
+		mkPol := func(t beacon.PolicyType, v int) beacon.Policy {
+			p, err := c23Policy(t, v)
+			if err != nil {
+				r.HarnessError("policy %s MaxExpTime=%d: %v", t, v, err)
+			}
+			return p
+		}
+		name := func(v int) string {
+			if v < 0 {
+				return "unset"
+			}
+			return fmt.Sprint(v)
+		}
+		for _, pv := range alphabet {
+			for _, av := range alphabet {
+				cs, err := beacon.NewCoreBeaconStore(beacon.CorePolicies{Prop: mkPol(beacon.PropPolicy, pv), CoreReg: mkPol(beacon.CoreRegPolicy, av)}, nil)
+				if err != nil {
+					r.HarnessError("core beacon store: %v", err)
+					return
+				}
+				confs = append(confs, conf{true, map[beacon.PolicyType]int{beacon.PropPolicy: pv, beacon.CoreRegPolicy: av}, cs,
+					fmt.Sprintf("core AS, MaxExpTime Prop=%s CoreReg=%s", name(pv), name(av))})
+				for _, bv := range alphabet {
+					s, err := beacon.NewBeaconStore(beacon.Policies{Prop: mkPol(beacon.PropPolicy, pv), UpReg: mkPol(beacon.UpRegPolicy, av),
+						DownReg: mkPol(beacon.DownRegPolicy, bv)}, nil)
+					if err != nil {
+						r.HarnessError("beacon store: %v", err)
+						return
+					}
+					confs = append(confs, conf{false, map[beacon.PolicyType]int{beacon.PropPolicy: pv, beacon.UpRegPolicy: av, beacon.DownRegPolicy: bv}, s,
+						fmt.Sprintf("non-core AS, MaxExpTime Prop=%s UpReg=%s DownReg=%s", name(pv), name(av), name(bv))})
+				}
+			}
+		}
+		for _, cf := range confs {
+			for ti := range c23Tasks {
+				tk := &c23Tasks[ti]
+				if tk.core != cf.core {
+					continue
+				}
+				v, ok := cf.vals[tk.policy]
+				if !ok {
+					r.HarnessError("task %s: no policy %s in %s", tk.name, tk.policy, cf.desc)
+					continue
+				}
+				c := c23Case{l: 2, ts: now.Add(-10 * time.Second), ingress: c23IfParent, egress: c23IfChild, peers: []uint16{c23IfPeerA, c23IfPeerB},
+					maxExp: confMax(v), signers: []c23Signer{longLived("local")}, part: "policy-store", store: cf.store, task: tk,
+					description: fmt.Sprintf("%s; extender of task %s (policy %s)", cf.desc, tk.name, tk.policy)}
+				if tk.originate {
+					c.l, c.ingress = 0, 0
+				}
+				if tk.terminate {
+					c.egress = 0
+				}
+				cases = append(cases, c)
+			}
+		}
+	}
+
 	nonMaximal, notLatest := 0, 0
 	for ci, c := range cases {
 		ps, err := prior(c.ts, c.l)
@@ -473,6 +618,9 @@ func c23Run(r *mc.Run) {
 			priorPB = &cppb.PathSegment{SegmentInfo: ps.Info.Raw}
 		}
 		ext := c23Extender(c.l, c.signers, c.maxExp, c.epic)
+		if c.store != nil {
+			ext = c23ExtenderFn(c.l, c.signers, c.task.maxExpFn(c.store), c.epic, c.task.name)
+		}
 		remoteOK := map[uint16]map[uint16]bool{} // remote interface ids an interface may report (a reload keeps the learned one)
 		curTopo := c23Interfaces(c.l)
 		for id, info := range curTopo {
@@ -628,7 +776,11 @@ func c23Run(r *mc.Run) {
 		// expiry bounds
 		checkExp := func(what string, exp uint32) {
 			if exp > uint32(c.maxExp) {
-				viol("expiry-exceeds-maximum", fmt.Sprintf("%s ExpTime %d > MaxExpTime %d", what, exp, c.maxExp))
+				if c.task != nil {
+					viol("expiry-exceeds-maximum-of-policy:"+c.task.name, fmt.Sprintf("%s ExpTime %d > MaxExpTime %d configured for policy %s", what, exp, c.maxExp, c.task.policy))
+				} else {
+					viol("expiry-exceeds-maximum", fmt.Sprintf("%s ExpTime %d > MaxExpTime %d", what, exp, c.maxExp))
+				}
 			}
 			if end := c.ts.Truncate(time.Second).Add(time.Duration(exp+1) * c24Unit); end.After(used.na) {
 				viol("expiry-exceeds-signer", fmt.Sprintf("%s ExpTime %d: hop valid until %v, signer %s expires %v", what, exp, end, used.name, used.na))
@@ -719,6 +871,7 @@ func c23Run(r *mc.Run) {
 		"an unknown ingress interface may be refused or not (not stated); a signer with less than one expiry unit of room may be refused",
 		"peer entries are expected exactly for the requested peer interfaces that are configured with a remote interface id (others are skipped)",
 		"whether the expiry is the largest admissible one and whether the latest-expiring signer was chosen are recorded as observations, not demanded",
+		"part F replicates the six extender constructions of control/tasks.go (TasksConfig.extender is unexported and the tasks are periodic runners); the stores, policy parsing/defaulting and RegPolicyType.PolicyType() are the real ones; the default maximum when a policy does not set MaxExpTime is 63",
 		"EPIC authenticators (bytes 6..16 of the same CMAC) are checked although the statement does not name them: only in cases with EPIC enabled",
 	}
 }
